@@ -12,7 +12,8 @@ ops:
   ["prov", arg]           providedBy(arg)          ["implby", arg]        implementedBy(arg)
   ["reg", [req ifaces], prov, name, vid]           registry.register (name 0 is '', k is 'n<k>')
   ["adapt", via, [args], p, name]   via = "qa" queryAdapter | "hook" adapter_hook | "multi" queryMultiAdapter
-  arg = ["obj", j] | ["super", C, j]
+  ["implspec", c, b]      classImplements(c, implementedBy(b))   (b created before c)
+  arg = ["obj", j] | ["super", C, j] | ["superc", C, T] super(C, T) bound to the class T | ["unbound", C] super(C)
 
 A case with "kind": "reg" is a registry history in the format of reg_common.py (static world with
 super proxies); its observation is the one of reg_driver.py.
@@ -20,14 +21,17 @@ super proxies); its observation is the one of reg_driver.py.
 Observation: {"mros": [[class ids] per class], "ans": [[ints] per op], "ip": [[ints] or None per op]}
   ans: [] for mutators; [0] exception; [1, kind, id] + sorted flattened interface numbers for a
        specification (kind 0: a specification that is neither a class's nor an instance's, numbered
-       by first appearance among the results; 1: implementedBy(class id); 2: Provides of instance id);
+       by first appearance among the results; 1: implementedBy(class id); 2: Provides of instance id;
+       3: the shared empty declaration);
        [2] default; [3, r] adapter result r = vid*1000 + digits (one per object passed to the
-       factory: its instance number, 9 = a super proxy was passed, 8 = something else); [4] ValueError
+       factory: its instance number, 2 + c = the class object number c, 9 = anything else: a super
+       proxy, None); [4] ValueError
   ip:  for "prov" ops the sorted numbers of the interfaces I with I.providedBy(arg) true
 """
 import _boot
 from zope.interface import Interface, implementedBy, providedBy, directlyProvides
 from zope.interface import classImplements, classImplementsOnly, classImplementsFirst
+from zope.interface.declarations import _empty
 from zope.interface.interface import InterfaceClass
 from zope.interface.adapter import AdapterRegistry
 
@@ -72,16 +76,24 @@ class World:
         self.other = []         # numbering of synthesized specifications
 
     def ident(self, o):
+        """instance j -> j; the class object number c -> 2 + c; anything else (a proxy, None) -> 9"""
         if isinstance(o, super):
             return 9
         for j, x in enumerate(self.objects):
             if x is o:
                 return j
-        return 8
+        for c, x in enumerate(self.classes):
+            if x is o:
+                return 2 + c
+        return 9
 
     def arg(self, a):
         if a[0] == "obj":
             return self.objects[a[1]]
+        if a[0] == "superc":                         # bound to the class object
+            return super(self.classes[a[1]], self.classes[a[2]])
+        if a[0] == "unbound":
+            return super(self.classes[a[1]])
         return super(self.classes[a[1]], self.objects[a[2]])
 
     def iface_no(self, i):
@@ -93,6 +105,8 @@ class World:
     def describe(self, spec, a=None):
         self.keep.append(spec)
         kind = ident = None
+        if spec is _empty:
+            kind, ident = 3, 0
         if a is not None and a[0] == "obj" and getattr(self.objects[a[1]], "__dict__", {}).get("__provides__") is spec:
             # Provides objects are shared between instances declared alike: name the queried one
             kind, ident = 2, a[1]
@@ -127,6 +141,9 @@ def run_op(w, op):
         return [], None
     if k == "first":
         classImplementsFirst(w.classes[op[1]], w.ifaces[op[2]])
+        return [], None
+    if k == "implspec":
+        classImplements(w.classes[op[1]], implementedBy(w.classes[op[2]]))
         return [], None
     if k == "prov":
         a = w.arg(op[1])
